@@ -134,6 +134,14 @@ void dom_match(void) {
         if (hl == 0 && h_chance(80)) continue;
         { int nn = h_chance(45) ? -1 : (int) h_below(5); unsigned len = (unsigned) hl;
           if (nn < 0 && h_chance(5) && hl > 1) len = 1 + h_below((unsigned) hl);                            /* caller's length shorter than the text */
+          else if (h_chance(35)) {
+              /* what follows a header inside the parser's input buffer: white space or a terminator, then program data.  The
+               * header ends at `len`; nothing behind it may influence acceptance or the reported suffixes (a digit run behind
+               * a blank is where a conversion routine that skips leading white space would read on) */
+              static const char *tails[] = { " 1000", " 1", "\n7", " -2", " +5", ";3", "\t12", " 1.5", "\r\n", "  42,7", " #H10", "\n" };
+              const char *tl = tails[h_below(12)]; size_t tn = strlen(tl);
+              if (hl + tn < sizeof hdr) { memcpy(hdr + hl, tl, tn); hl += tn; }
+          }
           emit(pat, hdr, hl, len, nn, (int) h_below(5) - 1); }
     }
 }
